@@ -4,6 +4,7 @@ package main
 // CRC as an uninterpreted function, string search leaves, sort.Slice.
 
 import (
+	"math"
 	"fmt"
 	"go/types"
 	"strconv"
@@ -660,6 +661,20 @@ func init() {
 		g := in.prog.ImportedPackage("crypto/md5").Func("blockGeneric")
 		return in.call(fr, g, args)
 	})
+	// math: assembly-backed float helpers on concrete values
+	for name, f := range map[string]func(float64) float64{
+		"math.archCeil": math.Ceil, "math.archFloor": math.Floor, "math.archTrunc": math.Trunc, "math.archSqrt": math.Sqrt,
+		"math.Ceil": math.Ceil, "math.Floor": math.Floor, "math.Trunc": math.Trunc, "math.Sqrt": math.Sqrt,
+	} {
+		f := f
+		reg(name, func(in *Interp, fr *frame, fn *ssa.Function, args []Value) Value {
+			x, ok := args[0].(F64)
+			if !ok {
+				in.unsupported("math function on a symbolic float")
+			}
+			return F64(f(float64(x)))
+		})
+	}
 	reg("time.runtimeNano", func(in *Interp, fr *frame, fn *ssa.Function, args []Value) Value {
 		return in.tb.BV(64, 0)
 	})
